@@ -24,7 +24,7 @@ static void feed(const char *s, size_t len, struct res *r, uint64_t id, int do_c
     for (int k = -1; k < 4; k++) {
         polyseed_data *d = NULL; const polyseed_lang *lo = NULL; int li = k < 0 ? -1 : EXPL[k];
         env_clear_log();
-        int st = k < 0 ? polyseed_decode(in, (polyseed_coin)coin, &lo, &d) : polyseed_decode_explicit(in, (polyseed_coin)coin, polyseed_get_lang(li), &d); r->calls++;
+        int st = k < 0 ? polyseed_decode(in, (polyseed_coin)coin, (id & 2) ? NULL : &lo, &d) : polyseed_decode_explicit(in, (polyseed_coin)coin, polyseed_get_lang(li), &d); r->calls++;
         if (st == POLYSEED_OK) polyseed_free(d);
         r->digest ^= mix64(id * 8 + (uint64_t)(k + 1), (uint64_t)st);
         if (st < 0 || st > 7 || st == POLYSEED_ERR_FORMAT) { snprintf(key, sizeof key, "c14:status-range:%d", st); res_viol(r, key, rep, "decoder returned undocumented status %d", st); goto out; }
